@@ -1151,6 +1151,21 @@ func outsideValue(cls string, w *World) []byte {
 	if strings.HasPrefix(cls, "raw:") {
 		return []byte(cls[4:])
 	}
+	if strings.HasPrefix(cls, "owntrail_") {
+		// the bytes the current owner wrote (its id and current token), followed by more bytes: not a JSON document
+		var cur []byte
+		if r := w.st.cur("g", time.Now()); r != nil && !r.tomb {
+			cur = append(cur, r.val...)
+		}
+		switch cls {
+		case "owntrail_obj":
+			return append(cur, []byte(`{"id":"X","token":"t-outside"}`)...)
+		case "owntrail_comma":
+			return append(cur, []byte(`,"x":1}`)...)
+		default:
+			return append(cur, []byte(` trailing bytes`)...)
+		}
+	}
 	return []byte(cls)
 }
 
